@@ -47,6 +47,7 @@ pub fn all_probes<H: HB>(prop: &str, universe: &[u32]) -> Vec<Box<dyn Probe<H>>>
         "C09" => vec![Box::new(IterMutPrograms { extra_len: 3, prios })],
         "C13" => vec![Box::new(IterPrograms { which: vec![It::Iter, It::IterRef, It::IntoIter, It::Drain, It::Sorted], extra_len: 2, sorted_vecs: false, adaptors: true })],
         "C16" => vec![Box::new(EmptiedLikeFresh { universe: universe.to_vec(), prios })],
+        "C11" => vec![Box::new(OfferedVsStored { universe: universe.to_vec() })],
         "C08" => vec![Box::new(BulkMutationPrograms { universe: universe.to_vec(), prios, all_tables: false })],
         "C08t" => vec![Box::new(BulkMutationPrograms { universe: universe.to_vec(), prios, all_tables: true })],
         "C14" => vec![Box::new(CloneIndependence { universe: universe.to_vec(), prios })],
@@ -80,8 +81,11 @@ fn drive<T>(
     sorted: Option<SortedSpec>,
     keep: &mut Vec<T>,
     strict_hint: bool,
+    order: Option<&[u32]>,
 ) -> Result<(), String> {
     let n = m.len();
+    // DoubleEndedIterator: next takes from the front and next_back from the back of ONE sequence
+    let (mut front, mut back_ix) = (0usize, order.map_or(0, |o| o.len()));
     let mut remaining = n;
     let mut yielded: Vec<u32> = vec![];
     let mut addrs: Vec<(usize, usize)> = vec![];
@@ -147,6 +151,23 @@ fn drive<T>(
                         ));
                     }
                 }
+                if let Some(o) = order {
+                    let want = if back {
+                        back_ix -= 1;
+                        o[back_ix]
+                    } else {
+                        front += 1;
+                        o[front - 1]
+                    };
+                    if want != pair.0 {
+                        return Err(format!(
+                            "{what}: program {prog:?} call {at} ({}) yielded item {} but the {} remaining element of the forward order {o:?} is item {want}",
+                            if back { "next_back" } else { "next" },
+                            pair.0,
+                            if back { "last" } else { "first" }
+                        ));
+                    }
+                }
                 yielded.push(pair.0);
                 addrs.push((a1, a2));
                 remaining -= 1;
@@ -192,26 +213,62 @@ impl IterPrograms {
                 It::Sorted => Q::q_new().q_into_sorted_iter().nb().is_some(),
             };
             let len = n + self.extra_len;
+            // the forward order of this iterator kind (all-next run)
+            let mut fwd: Vec<u32> = vec![];
+            match w {
+                It::Iter | It::IterRef => {
+                    let mut it = q.q_iter();
+                    while let Some((i, _)) = it.nx() {
+                        fwd.push(i.key);
+                        if fwd.len() > n + 2 {
+                            break;
+                        }
+                    }
+                }
+                It::IntoIter => {
+                    let mut it = q.clone().q_into_iter();
+                    while let Some((i, _)) = it.nx() {
+                        fwd.push(i.key);
+                        if fwd.len() > n + 2 {
+                            break;
+                        }
+                    }
+                }
+                It::Drain => {
+                    let mut c = q.clone();
+                    let mut it = c.q_drain();
+                    while let Some((i, _)) = it.nx() {
+                        fwd.push(i.key);
+                        if fwd.len() > n + 2 {
+                            break;
+                        }
+                    }
+                }
+                It::Sorted => {}
+            }
+            if w != It::Sorted && fwd.len() != n {
+                return Err(format!("{w:?}: a full forward traversal yields {} elements of {n}", fwd.len()));
+            }
             for prog in programs(len, back) {
                 cases += 1;
                 match w {
                     It::Iter => {
                         let mut it = q.q_iter();
-                        drive("iter()", &mut *it, &prog, m, &conv_ref, None, &mut vec![], true)?;
+                        drive("iter()", &mut *it, &prog, m, &conv_ref, None, &mut vec![], true, Some(&fwd))?;
                     }
                     It::IterRef => {
                         let mut it = q.q_iter_ref();
-                        drive("(&queue).into_iter()", &mut *it, &prog, m, &conv_ref, None, &mut vec![], true)?;
+                        drive("(&queue).into_iter()", &mut *it, &prog, m, &conv_ref, None, &mut vec![], true, Some(&fwd))?;
                     }
                     It::IntoIter => {
                         let mut it = q.clone().q_into_iter();
-                        drive("into_iter()", &mut *it, &prog, m, &conv_own, None, &mut vec![], true)?;
+                        drive("into_iter()", &mut *it, &prog, m, &conv_own, None, &mut vec![], true, Some(&fwd))?;
                     }
                     It::Drain => {
                         let mut c = q.clone();
                         {
                             let mut it = c.q_drain();
-                            drive("drain()", &mut *it, &prog, m, &conv_own, None, &mut vec![], true)?;
+                            drive("drain()", &mut *it, &prog, m, &conv_own, None, &mut vec![], true, Some(&fwd))?;
                         }
                         let s = c.snap();
                         check_state(&c, &s, &Model::new(), false, &[])?;
@@ -219,7 +276,7 @@ impl IterPrograms {
                     It::Sorted => {
                         let mut it = q.clone().q_into_sorted_iter();
                         let spec = SortedSpec { front_is_max: !Q::DOUBLE };
-                        drive("into_sorted_iter()", &mut *it, &prog, m, &conv_own, Some(spec), &mut vec![], self.adaptors)?;
+                        drive("into_sorted_iter()", &mut *it, &prog, m, &conv_own, Some(spec), &mut vec![], self.adaptors, None)?;
                     }
                 }
             }
@@ -303,6 +360,20 @@ impl IterMutPrograms {
         let back = iter_mut_offers_back(q);
         let conv = |t: &(&mut Item, &mut Prio)| (pair_of(t.0, t.1), &*t.0 as *const Item as usize, &*t.1 as *const Prio as usize);
         let universe: Vec<u32> = m.keys().copied().collect();
+        let mut fwd: Vec<u32> = vec![];
+        {
+            let mut c = q.clone();
+            let mut it = c.q_iter_mut();
+            while let Some((i, _)) = it.nx() {
+                fwd.push(i.key);
+                if fwd.len() > n + 2 {
+                    break;
+                }
+            }
+        }
+        if fwd.len() != n {
+            return Err(format!("iter_mut: a full forward traversal yields {} elements of {n}", fwd.len()));
+        }
         for len in 0..=(n + self.extra_len) {
             for prog in programs(len, back) {
                 for via_ref in [false, true] {
@@ -314,7 +385,7 @@ impl IterMutPrograms {
                             let mut it = if via_ref { c.q_iter_mut_ref() } else { c.q_iter_mut() };
                             let mut keep: Vec<(&mut Item, &mut Prio)> = vec![];
                             let what = format!("iter_mut(){}", if via_ref { " via &mut queue" } else { "" });
-                            drive(&what, &mut *it, &prog, m, &conv, None, &mut keep, true)?;
+                            drive(&what, &mut *it, &prog, m, &conv, None, &mut keep, true, Some(&fwd))?;
                             if write {
                                 // every reference handed out is still alive: write through all of them
                                 for (j, (i, p)) in keep.iter_mut().enumerate() {
@@ -674,6 +745,59 @@ impl CapacityTwin {
 impl<H: HB> Probe<H> for CapacityTwin {
     fn name(&self) -> String {
         "capacity-twin".into()
+    }
+    fn on_state(&self, q: &AnyQ<H>, m: &Model, _unordered: bool) -> Result<u64, String> {
+        with_q!(q, x => self.run(x, m))
+    }
+}
+
+/// C11 with priorities whose Ord ignores part of the value: when the offer does not move the
+/// priority, the STORED value must stay and the OFFERED one must come back; when it moves, the
+/// offered value is stored and the old stored one comes back.
+pub struct OfferedVsStored {
+    pub universe: Vec<u32>,
+}
+
+impl OfferedVsStored {
+    fn run<Q: QueueLike>(&self, q: &Q, m: &Model) -> Result<u64, String> {
+        let mut cases = 0;
+        let before = q.snap();
+        for (&k, &(_, stored)) in m.iter() {
+            for inc in [true, false] {
+                for delta in [-1i32, 0, 1] {
+                    let Some(offer) = stored.checked_add(delta) else { continue };
+                    cases += 1;
+                    let name = if inc { "push_increase" } else { "push_decrease" };
+                    let mut c = q.clone();
+                    let r = if inc { c.q_push_increase(Item::new(k, 0xEE), Prio::tagged(offer, 7)) } else { c.q_push_decrease(Item::new(k, 0xEE), Prio::tagged(offer, 7)) };
+                    let moves = if inc { offer > stored } else { offer < stored };
+                    let now = c.q_get_priority_b(&Key(k)).map(|p| (p.v, p.tag));
+                    let r = r.map(|p| (p.v, p.tag));
+                    if moves {
+                        if r != Some((stored, 0)) || now != Some((offer, 7)) {
+                            return Err(format!("{name}({k}, {offer}) on stored {stored}: returned {r:?} (expected the old stored value ({stored}, tag 0)), stored now {now:?} (expected the offered value, tag 7)"));
+                        }
+                    } else {
+                        if r != Some((offer, 7)) {
+                            return Err(format!("{name}({k}, {offer}) on stored {stored} must return the offered value (tag 7), returned {r:?}"));
+                        }
+                        if now != Some((stored, 0)) {
+                            return Err(format!("{name}({k}, {offer}) on stored {stored} must leave the stored priority untouched (tag 0), stored now {now:?}"));
+                        }
+                        if c.snap() != before {
+                            return Err(format!("{name}({k}, {offer}) on stored {stored} changed the queue: {:?} -> {:?}", before, c.snap()));
+                        }
+                    }
+                }
+            }
+        }
+        Ok(cases)
+    }
+}
+
+impl<H: HB> Probe<H> for OfferedVsStored {
+    fn name(&self) -> String {
+        "offered-vs-stored-priority".into()
     }
     fn on_state(&self, q: &AnyQ<H>, m: &Model, _unordered: bool) -> Result<u64, String> {
         with_q!(q, x => self.run(x, m))
